@@ -432,7 +432,31 @@ impl<'a> QGen<'a> {
 
     pub fn regex_fn(&self, rng: &mut Rng, name: &str, pat: &str) -> String {
         let arg = if rng.chance(2, 3) { self.singular(rng) } else { "@".to_string() };
-        format!("{}({},{}{})", name, arg, self.sp(rng), quote_single(pat))
+        // the pattern is a literal, or comes from the document (root- or current-anchored)
+        let p = match rng.weighted(&[6, 2, 1]) {
+            0 => quote_single(pat),
+            1 => "$.re".to_string(),
+            _ => "@.re".to_string(),
+        };
+        format!("{}({},{}{})", name, arg, self.sp(rng), p)
+    }
+
+    /// Queries whose filter has an atom that depends on the root only: the same for every child, and
+    /// different between two documents that differ in one top-level member.
+    pub fn root_dependent(&self, rng: &mut Rng) -> String {
+        let pre = *rng.pick(&["$.elems", "$.list", "$..*", "$.*", "$.x.b", "$"]);
+        let atom = match rng.below(8) {
+            0 => "$.flag == true".to_string(),
+            1 => "$.flag".to_string(),
+            2 => format!("@ > $.lim"),
+            3 => format!("$.lim < {}", rng.range(0, 3)),
+            4 => format!("length($.list) == {}", rng.range(2, 4)),
+            5 => format!("match(@, $.re)"),
+            6 => format!("search(@, $.re)"),
+            _ => format!("count($.list[*]) >= {} && @", rng.range(2, 4)),
+        };
+        let extra = if rng.chance(1, 3) { format!(" && {}", self.atom(rng, 2)) } else { String::new() };
+        format!("{}[?{}{}]", pre, atom, extra)
     }
 
     fn atom(&self, rng: &mut Rng, depth: usize) -> String {
@@ -553,4 +577,68 @@ pub fn invalidate(rng: &mut Rng, q: &str) -> String {
         }
     }
     v.into_iter().collect()
+}
+
+/// A near-twin of a query text: a string a sloppy cache key (trimmed, blank-stripped, case-folded,
+/// length- or prefix-keyed) would confuse with the original although the two mean different things
+/// (or one of them is not a query at all).
+pub fn twin(rng: &mut Rng, q: &str) -> String {
+    let cs: Vec<char> = q.chars().collect();
+    match rng.below(8) {
+        0 => format!(" {}", q),
+        1 => format!("{} ", q),
+        2 => format!("{}{}", q, rng.pick(&["\t", "\n", "  "])),
+        3 => {
+            // blank space inside a quoted name or literal changes the meaning
+            if let Some(i) = cs.iter().position(|c| *c == '\'' || *c == '"') {
+                let mut v = cs.clone();
+                v.insert(i + 1, ' ');
+                v.into_iter().collect()
+            } else {
+                format!("{} ", q)
+            }
+        }
+        4 => {
+            // case of the first letter after a dot
+            let mut v = cs.clone();
+            for i in 1..v.len() {
+                if v[i - 1] == '.' && v[i].is_ascii_lowercase() {
+                    v[i] = v[i].to_ascii_uppercase();
+                    break;
+                }
+            }
+            v.into_iter().collect()
+        }
+        5 => {
+            // same length, one digit changed
+            let mut v = cs.clone();
+            let ds: Vec<usize> = (0..v.len()).filter(|i| v[*i].is_ascii_digit()).collect();
+            if ds.is_empty() {
+                return format!("{}[0]", q);
+            }
+            let i = *rng.pick(&ds);
+            v[i] = if v[i] == '1' { '0' } else { '1' };
+            v.into_iter().collect()
+        }
+        6 => {
+            // same length, same prefix, last letter changed
+            let mut v = cs.clone();
+            if let Some(i) = (0..v.len()).rev().find(|i| v[*i].is_ascii_lowercase()) {
+                v[i] = if v[i] == 'a' { 'b' } else { 'a' };
+            }
+            v.into_iter().collect()
+        }
+        _ => {
+            // a comparison operator flipped
+            if q.contains("==") {
+                q.replacen("==", "!=", 1)
+            } else if q.contains("<=") {
+                q.replacen("<=", ">=", 1)
+            } else if q.contains('<') {
+                q.replacen('<', ">", 1)
+            } else {
+                format!("{}.*", q)
+            }
+        }
+    }
 }
